@@ -24,18 +24,21 @@ extern void abort(void);
 extern int dprintf(int, const char *, ...);
 #define IL_INLINE static inline __attribute__((always_inline, unused))
 __attribute__((noreturn, unused)) static void il_trap(const char *why) { dprintf(2, "IL-TRAP: %s\n", why); abort(); }
-IL_INLINE void st1(L a, W v) { uint8_t x = (uint8_t)v; memcpy((void *)(uintptr_t)a, &x, 1); }
-IL_INLINE void st2(L a, W v) { uint16_t x = (uint16_t)v; memcpy((void *)(uintptr_t)a, &x, 2); }
-IL_INLINE void st4(L a, W v) { memcpy((void *)(uintptr_t)a, &v, 4); }
-IL_INLINE void st8(L a, L v) { memcpy((void *)(uintptr_t)a, &v, 8); }
-IL_INLINE void sts(L a, S v) { memcpy((void *)(uintptr_t)a, &v, 4); }
-IL_INLINE void std_(L a, D v) { memcpy((void *)(uintptr_t)a, &v, 8); }
-IL_INLINE uint8_t ld1(L a) { uint8_t x; memcpy(&x, (void *)(uintptr_t)a, 1); return x; }
-IL_INLINE uint16_t ld2(L a) { uint16_t x; memcpy(&x, (void *)(uintptr_t)a, 2); return x; }
-IL_INLINE uint32_t ld4(L a) { uint32_t x; memcpy(&x, (void *)(uintptr_t)a, 4); return x; }
-IL_INLINE uint64_t ld8(L a) { uint64_t x; memcpy(&x, (void *)(uintptr_t)a, 8); return x; }
-IL_INLINE S lds(L a) { S x; memcpy(&x, (void *)(uintptr_t)a, 4); return x; }
-IL_INLINE D ldd(L a) { D x; memcpy(&x, (void *)(uintptr_t)a, 8); return x; }
+typedef uint16_t __attribute__((aligned(1), may_alias)) ua16; typedef uint32_t __attribute__((aligned(1), may_alias)) ua32;
+typedef uint64_t __attribute__((aligned(1), may_alias)) ua64; typedef float __attribute__((aligned(1), may_alias)) uaf; typedef double __attribute__((aligned(1), may_alias)) uad;
+typedef uint8_t __attribute__((may_alias)) ua8;
+#define st1(a, v) (*(ua8 *)(uintptr_t)(a) = (uint8_t)(v))
+#define st2(a, v) (*(ua16 *)(uintptr_t)(a) = (uint16_t)(v))
+#define st4(a, v) (*(ua32 *)(uintptr_t)(a) = (W)(v))
+#define st8(a, v) (*(ua64 *)(uintptr_t)(a) = (L)(v))
+#define sts(a, v) (*(uaf *)(uintptr_t)(a) = (S)(v))
+#define std_(a, v) (*(uad *)(uintptr_t)(a) = (D)(v))
+#define ld1(a) (*(ua8 *)(uintptr_t)(a))
+#define ld2(a) (*(ua16 *)(uintptr_t)(a))
+#define ld4(a) (*(ua32 *)(uintptr_t)(a))
+#define ld8(a) (*(ua64 *)(uintptr_t)(a))
+#define lds(a) (*(uaf *)(uintptr_t)(a))
+#define ldd(a) (*(uad *)(uintptr_t)(a))
 IL_INLINE S b2s(W v) { S x; memcpy(&x, &v, 4); return x; }
 IL_INLINE D b2d(L v) { D x; memcpy(&x, &v, 8); return x; }
 IL_INLINE W s2b(S v) { W x; memcpy(&x, &v, 4); return x; }
